@@ -92,6 +92,85 @@ def extract_autoescape(repo: Path) -> bool:
     raise RuntimeError("jinja2.Environment(...) assignment to `env` not found in ford/output.py")
 
 
+def _class_defs(tree):
+    return {n.name: n for n in tree.body if isinstance(n, ast.ClassDef)}
+
+
+def _method(cls, name):
+    for n in cls.body:
+        if isinstance(n, ast.FunctionDef) and n.name == name:
+            return n
+    return None
+
+
+def extract_cleanup_steps(repo: Path):
+    """The order of the steps of `_cleanup` of a procedure (ford/sourceform.py) that decide what a
+    displayed dummy argument / function result / variable carries: `process_attribs()` (attributes
+    of separate attribute statements are attached to `self.variables`), the removal of `external`
+    variables, the argument loop and the result match (both move a variable out of
+    `self.variables`).  `super()._cleanup()` is expanded in place.  Returns
+    {"unit": [...], "proc": [...], "func": [...]} with step names of `Ford.AttrStmt.CleanStep`."""
+    tree = ast.parse((repo / "ford" / "sourceform.py").read_text())
+    classes = _class_defs(tree)
+
+    def base_of(cname):
+        bases = [ast.unparse(b) for b in classes[cname].bases]
+        if len(bases) != 1 or bases[0] not in classes:
+            raise RuntimeError(f"sourceform.py: class {cname} has unexpected bases {bases}")
+        return bases[0]
+
+    def steps_of(cname, depth=0):
+        if depth > 6:
+            raise RuntimeError("sourceform.py: _cleanup inheritance chain too deep")
+        if cname not in classes:
+            raise RuntimeError(f"sourceform.py: class {cname} not found")
+        fn = _method(classes[cname], "_cleanup")
+        if fn is None:
+            return steps_of(base_of(cname), depth + 1)
+        out = []
+        for st in fn.body:
+            text = ast.unparse(st)
+            if isinstance(st, ast.Expr) and isinstance(st.value, ast.Constant):
+                continue
+            if text == "self.process_attribs()":
+                out.append("attribs")
+            elif text == "super()._cleanup()":
+                out += steps_of(base_of(cname), depth + 1)
+            elif isinstance(st, ast.For) and "enumerate(self.args)" in ast.unparse(st.iter):
+                if "self.variables.remove(var)" not in text or "self.args[i] = arg" not in text:
+                    raise RuntimeError(f"{cname}._cleanup: the argument loop has an unexpected body")
+                out.append("matchArgs")
+            elif isinstance(st, ast.If) and ast.unparse(st.test) == "not isinstance(self.retvar, FortranVariable)":
+                if "self.variables.remove(var)" not in text or "self.retvar = var" not in text:
+                    raise RuntimeError(f"{cname}._cleanup: the result match has an unexpected body")
+                out.append("matchResult")
+            elif isinstance(st, ast.Assign) and ast.unparse(st.targets[0]) == "self.variables":
+                if ast.unparse(st.value) != "[v for v in self.variables if 'external' not in v.attribs]":
+                    raise RuntimeError(f"{cname}._cleanup: unexpected assignment to self.variables: {text[:90]!r}")
+                out.append("dropExternal")
+            elif isinstance(st, ast.Assign) and ast.unparse(st.targets[0]).startswith("self.all_procs"):
+                continue
+            elif isinstance(st, ast.For) and ast.unparse(st.iter) == "self.interfaces" and all(
+                    isinstance(n, (ast.Assign, ast.If, ast.For)) for n in st.body) and "self.variables" not in text \
+                    and "self.args" not in text and "retvar" not in text and "attr_dict" not in text:
+                continue
+            else:
+                raise RuntimeError(f"{cname}._cleanup: unrecognised statement {text[:90]!r}")
+        return out
+
+    for sub in ("FortranSubroutine",):
+        if _method(classes.get(sub, ast.ClassDef(name=sub, body=[])), "_cleanup") is not None:
+            raise RuntimeError(f"sourceform.py: {sub} now has its own _cleanup (not translated)")
+    res = {"unit": steps_of("FortranCodeUnit"), "proc": steps_of("FortranSubroutine"), "func": steps_of("FortranFunction")}
+    for k, need in (("unit", {"attribs"}), ("proc", {"attribs", "matchArgs"}), ("func", {"attribs", "matchArgs", "matchResult"})):
+        if not need <= set(res[k]):
+            raise RuntimeError(f"sourceform.py: _cleanup of {k}: steps {res[k]} lack {sorted(need - set(res[k]))}")
+    return res
+
+
+CLEANUP: dict = {}  # filled by translate(): the step orders last written
+
+
 def lean_str(s: str) -> str:
     return '"' + s.replace("\\", "\\\\").replace('"', '\\"') + '"'
 
@@ -100,11 +179,25 @@ def translate():
     repo = common.REPO
     sites = extract_sites(repo)
     auto = extract_autoescape(repo)
+    steps = extract_cleanup_steps(repo)
+    CLEANUP.clear()
+    CLEANUP.update(steps)
+
+    def step_list(k):
+        return "[" + ", ".join("." + x for x in steps[k]) + "]"
+
     out = [
-        "/- GENERATED by translate/c18.py from ford/templates/*.html and ford/output.py - do not edit -/",
+        "/- GENERATED by translate/c18.py from ford/templates/*.html, ford/output.py and ford/sourceform.py - do not edit -/",
         "import FordModel.Escape",
+        "import FordModel.AttrStmt",
         "namespace Ford.Generated.C18",
         "open Ford.Html",
+        "",
+        "/-- the steps of `_cleanup` (ford/sourceform.py) that touch `self.variables` / `self.args` / `self.retvar`,",
+        "    in source order, `super()._cleanup()` expanded: FortranCodeUnit, FortranSubroutine, FortranFunction -/",
+        f"def unitCleanupSteps : List Ford.AttrStmt.CleanStep := {step_list('unit')}",
+        f"def procCleanupSteps : List Ford.AttrStmt.CleanStep := {step_list('proc')}",
+        f"def funcCleanupSteps : List Ford.AttrStmt.CleanStep := {step_list('func')}",
         "",
         f"def autoescape : Bool := {'true' if auto else 'false'}",
         "",
@@ -122,4 +215,4 @@ def translate():
 
 if __name__ == "__main__":
     s, a = translate()
-    print(len(s), "sites; autoescape =", a)
+    print(len(s), "sites; autoescape =", a, "; cleanup steps", CLEANUP)
